@@ -18,6 +18,7 @@ package cmd
 
 //@ func addCmd.RunE
 //@   requires clientWF() && cmd != nil
+//@   invariant-all clientWF()
 
 //@ func branchCmd.PreRunE
 //@   returns err
@@ -58,6 +59,7 @@ package cmd
 
 //@ func hashObjectCmd.RunE
 //@   requires clientWF() && cmd != nil
+//@   invariant-all clientWF()
 
 //@ func logCmd.PreRunE
 //@   returns err
@@ -74,6 +76,7 @@ package cmd
 
 //@ func lsFilesCmd.Run
 //@   requires clientWF() && cmd != nil
+//@   invariant-all clientWF()
 
 //@ func reflogCmd.PreRunE
 //@   returns err
@@ -98,6 +101,7 @@ package cmd
 
 //@ func restoreCmd.RunE
 //@   requires clientWF() && cmd != nil
+//@   invariant-all clientWF()
 
 //@ func revParseCmd.PreRunE
 //@   returns err
@@ -114,6 +118,7 @@ package cmd
 
 //@ func rmCmd.RunE
 //@   requires clientWF() && cmd != nil
+//@   invariant-all clientWF()
 
 //@ func statusCmd.PreRunE
 //@   returns err
@@ -122,6 +127,7 @@ package cmd
 
 //@ func statusCmd.RunE
 //@   requires clientWF() && cmd != nil
+//@   invariant-all clientWF()
 
 //@ func switchCmd.PreRunE
 //@   returns err
